@@ -11,6 +11,7 @@
   The model is that of the repaired code (fixes D-04 reverse getters, D-06 `IndexRange::clip`).
 -/
 import EasyMl.Lemmas.PartitionGrid
+import EasyMl.Lemmas.LiveView
 
 namespace EasyMl.C12
 open EasyMl EasyMl.Spec EasyMl.Fallible EasyMl.MatrixView
@@ -107,6 +108,58 @@ example :
       e.cell 1 0 = none ∧ e.cell usizeMax usizeMax = none := by
   refine ⟨by simp only [MExpr.LeavesOk]; decide, by decide, by decide, by decide, by decide,
     by decide, by decide⟩
+
+/-! ## Views whose source changes after construction (`source_ref_mut`, `source_ref`, `source`) -/
+
+/-- **The view's mapping is a function of the CURRENT source.**  Take reversal views (any
+    number, any flags — `MatrixReverse` is the only public matrix adaptor that hands its source
+    back out) around a matrix, then apply *any* history of operations to that matrix through
+    `source_ref_mut()` — writes, `insert_row`, `remove_column`, `retain_mut`, transposition, also
+    rejected ones that panic (the alphabet and semantics of C11's `Matrix.exec`).  Afterwards the
+    view is exactly the reversal, with the same flags, of the matrix **as it is now**
+    (`Matrix.run`): its size is the matrix's current size, its checked getters answer for every
+    index the designated cell of the current data (or `None`; never a panic), and its unchecked
+    getters reach the same cell inside the size. -/
+theorem live_view_after_source_steps {α : Type} (l : Live α) (ops : List (Matrix.Op α))
+    (h : l.leaf.Inv) (hb : (Matrix.run l.leaf ops).data.length ≤ usizeMax) :
+    (l.mutateAll ops).leaf = Matrix.run l.leaf ops ∧
+    (l.mutateAll ops).flags = l.flags ∧
+    ∀ e, e = reversalsOver (Matrix.run l.leaf ops).rows (Matrix.run l.leaf ops).columns l.flags →
+      ((l.mutateAll ops).view Arith.fixed).view.rows = e.size.1 ∧
+      ((l.mutateAll ops).view Arith.fixed).view.columns = e.size.2 ∧
+      (∀ i j, ((l.mutateAll ops).view Arith.fixed).view.get i j = .ok (e.cell i j)) ∧
+      (∀ i j o, e.cell i j = some o → ((l.mutateAll ops).view Arith.fixed).uget i j = .ok o) := by
+  have hleaf := l.mutateAll_leaf ops
+  have hflags := l.mutateAll_flags ops
+  refine ⟨hleaf, hflags, ?_⟩
+  intro e he
+  have hinv : (l.mutateAll ops).leaf.Inv := by rw [hleaf]; exact run_inv l.leaf h ops
+  have href := (l.mutateAll ops).view_refines hinv (by rw [hleaf]; exact hb)
+  rw [(l.mutateAll ops).expr_eq, hleaf, hflags, ← he] at href
+  exact href
+
+/-- `source_ref()` (any number of times) and `source(self)` give the inner reversal view over
+    the same matrix: the statement above applies to it with the remaining flags. -/
+theorem live_source_ref {α : Type} (l : Live α) (k : Nat) (s : Live α)
+    (hs : l.sourceRef k = some s) (h : l.leaf.Inv) (hb : l.leaf.data.length ≤ usizeMax) :
+    s.leaf = l.leaf ∧ s.flags = l.flags.take (l.flags.length - k) ∧
+    ∀ i j, (s.view Arith.fixed).view.get i j =
+      .ok ((reversalsOver l.leaf.rows l.leaf.columns (l.flags.take (l.flags.length - k))).cell i j) := by
+  obtain ⟨h1, h2⟩ := l.sourceRef_leaf k s hs
+  refine ⟨h1, h2, ?_⟩
+  have href := s.view_refines (by rw [h1]; exact h) (by rw [h1]; exact hb)
+  rw [s.expr_eq, h1, h2] at href
+  exact href.2.2.1
+
+/-- Non-vacuity: a row-reversed 2×3 matrix, a row inserted at the end through the view; the
+    view now has 3 rows and its index (0, 0) is the first cell of the *new* last row (offset 6). -/
+example :
+    let l : Live Nat := .reverse (.matrix ⟨[1, 2, 3, 4, 5, 6], 2, 3⟩) true false
+    let l' := l.mutateAll [.insertRow 2 99]
+    l.leaf.Inv ∧ l'.leaf.data = [1, 2, 3, 4, 5, 6, 99, 99, 99] ∧
+      (reversalsOver l'.leaf.rows l'.leaf.columns l.flags).size = (3, 3) ∧
+      (reversalsOver l'.leaf.rows l'.leaf.columns l.flags).cell 0 0 = some 6 := by
+  refine ⟨by decide, by decide, by decide, by decide⟩
 
 /-! ## Partitions -/
 
